@@ -173,14 +173,55 @@ def parse_module(text):
 
 # ------------------------------------------------------------------ values
 class V:
-    """integer of some bit width held as its unsigned residue: e = z3 Int, [lo,hi] sound interval"""
-    __slots__ = ('e', 'lo', 'hi')
-    def __init__(s, e, lo, hi): s.e = e; s.lo = lo; s.hi = hi
+    """integer of some bit width held as its unsigned residue: e = z3 Int, [lo,hi] sound interval;
+    cs = (frozenset of possible constants, may_be_something_else) or None - a small-set refinement used to
+    prune candidate offsets of symbolic memory accesses"""
+    __slots__ = ('e', 'lo', 'hi', 'cs', 'br')
+    def __init__(s, e, lo, hi, cs=None, br=None):
+        s.e = e; s.lo = lo; s.hi = hi; s.cs = cs if lo != hi else (frozenset([lo]), False)
+        s.br = br        # optional bit representation: list of z3 Int terms in {0,1}, LSB first, e == sum(br[i] << i)
     def conc(s): return s.lo if s.lo == s.hi else None
     def __repr__(s): return 'V[%s,%s]' % (s.lo, s.hi) if s.lo != s.hi else 'V(%d)' % s.lo
 
 
 def C(v): return V(I(v), v, v)
+
+
+def from_bits(bits):
+    """V from a list of bit terms (python 0/1 or z3 Int in {0,1}), LSB first"""
+    e = None; lo = hi = 0; br = []
+    for i, b in enumerate(bits):
+        if isinstance(b, int):
+            br.append(I(b))
+            if b: lo += 1 << i; hi += 1 << i; e = I(1 << i) if e is None else e + (1 << i)
+        else:
+            br.append(b); hi += 1 << i
+            t = b * (1 << i) if i else b
+            e = t if e is None else e + t
+    if e is None: e = I(0)
+    if lo == hi: return C(lo)
+    return V(e, lo, hi, None, br)
+
+
+def _bits_of(x, n):
+    if x.br is not None: return (x.br + [I(0)] * n)[:n]
+    c = x.conc()
+    if c is not None: return [I((c >> i) & 1) for i in range(n)]
+    return None
+
+
+def _bitop_const(op, x, c):
+    """x op c on the bit representation (c python int)"""
+    n = max(len(x.br), c.bit_length() if op != 'and' else len(x.br))
+    out = []
+    for i in range(n):
+        b = x.br[i] if i < len(x.br) else I(0)
+        cb = (c >> i) & 1
+        if op == 'and': out.append(b if cb else 0)
+        elif op == 'or': out.append(1 if cb else b)
+        else: out.append((1 - b) if cb else b)
+    out = [(v.as_long() if z3.is_int_value(v) else v) if not isinstance(v, int) else v for v in out]
+    return from_bits(out)
 
 
 class Ptr:
@@ -250,8 +291,20 @@ def vite(c, a, b):
     if a is b: return a
     if isinstance(a, V) and isinstance(b, V):
         if a.lo == a.hi == b.lo == b.hi: return a
-        if a.e.eq(b.e): return V(a.e, min(a.lo, b.lo), max(a.hi, b.hi))
-        return V(z3.If(c, a.e, b.e), min(a.lo, b.lo), max(a.hi, b.hi))
+        if a.e.eq(b.e): return V(a.e, min(a.lo, b.lo), max(a.hi, b.hi), a.cs)
+        if (a.br is not None or b.br is not None) and max(a.hi, b.hi) < (1 << 16):
+            n = max(a.hi, b.hi).bit_length()
+            ba, bb = _bits_of(a, n), _bits_of(b, n)
+            if ba is not None and bb is not None:
+                out = []
+                for x, y in zip(ba, bb):
+                    if x.eq(y): out.append(x.as_long() if z3.is_int_value(x) else x)
+                    else: out.append(z3.If(c, x, y))
+                return from_bits(out)
+        ca_, cb_ = a.cs or (_E, True), b.cs or (_E, True)
+        u = ca_[0] | cb_[0]
+        cs = (u, ca_[1] or cb_[1]) if len(u) <= 256 and u else None
+        return V(z3.If(c, a.e, b.e), min(a.lo, b.lo), max(a.hi, b.hi), cs)
     pa = isinstance(a, (Ptr, FnPtr, PSel)); pb = isinstance(b, (Ptr, FnPtr, PSel))
     if pa and pb:
         if isinstance(a, Ptr) and isinstance(b, Ptr) and a.obj == b.obj:
@@ -277,7 +330,23 @@ def vite(c, a, b):
     raise Unsupported('merge of %r / %r' % (a, b))
 
 
+_E = frozenset()
+
+
+def _map_cs(x, f):
+    if x.cs is None: return None
+    try: return (frozenset(f(v) for v in x.cs[0]), x.cs[1])
+    except Exception: return None
+
+
 def and_const(x, c):
+    if x.br is not None: return _bitop_const('and', x, c)
+    r = _and_const(x, c)
+    if r.cs is None and x.cs is not None: r.cs = _map_cs(x, lambda v: v & c)
+    return r
+
+
+def _and_const(x, c):
     if c == 0: return C(0)
     top = max(x.hi.bit_length(), 1)
     c &= (1 << top) - 1
@@ -301,6 +370,15 @@ _PYOP = {'and': lambda x, y: x & y, 'or': lambda x, y: x | y, 'xor': lambda x, y
 
 
 def binop(op, a, b, w):
+    r = _binop(op, a, b, w)
+    if isinstance(r, V) and r.cs is None and isinstance(a, V) and isinstance(b, V):
+        M_ = 1 << w
+        if b.lo == b.hi and a.cs is not None and op in _PYOP: r.cs = _map_cs(a, lambda v: _PYOP[op](v, b.lo) % M_)
+        elif a.lo == a.hi and b.cs is not None and op in ('add', 'mul', 'and', 'or', 'xor'): r.cs = _map_cs(b, lambda v: _PYOP[op](a.lo, v) % M_)
+    return r
+
+
+def _binop(op, a, b, w):
     if isinstance(a, PtrInt) or isinstance(b, PtrInt):
         if op == 'sub' and isinstance(a, PtrInt) and isinstance(b, PtrInt) and a.obj == b.obj:
             return norm(a.off.e - b.off.e, a.off.lo - b.off.hi, a.off.hi - b.off.lo, w)
@@ -348,6 +426,16 @@ def binop(op, a, b, w):
         if sa.lo >= 0: return V(sa.e / (1 << cb), sa.lo >> cb, sa.hi >> cb)
         return norm(sa.e / (1 << cb), sa.lo >> cb, sa.hi >> cb, w)
     if op in ('or', 'xor') and (ca == 0 or cb == 0): return b if ca == 0 else a
+    if op in ('or', 'xor') and (ca is not None or cb is not None) and (a if cb is not None else b).br is not None:
+        return _bitop_const(op, a if cb is not None else b, cb if cb is not None else ca)
+    if op in ('or', 'xor') and (ca is not None or cb is not None):
+        # x | c == x + c - (x & c);  x ^ c == x + c - 2*(x & c): stays in linear arithmetic with div/mod by constants
+        x, c = (a, cb) if cb is not None else (b, ca)
+        xa = _and_const(x, c)
+        k = 1 if op == 'or' else 2
+        lo = max(x.lo + c - k * xa.hi, 0); hi = x.hi + c - k * xa.lo
+        top = (1 << max(x.hi.bit_length(), c.bit_length())) - 1
+        return V(x.e + c - k * xa.e, lo, min(hi, top))
     if op == 'or' and cb is not None and ca is None:
         # x | c with the bits of c known clear in x -> x + c
         if a.hi < (1 << (cb.bit_length())) and False: pass
@@ -539,14 +627,17 @@ class Exec:
                 r = M.res(cur)
                 if r.k == 'struct':
                     fi = idx.conc(); o = M.layout(r)[0][fi]
-                    off = V(off.e + o, off.lo + o, off.hi + o) if o else off; cur = r.fields[fi]; continue
+                    off = V(off.e + o, off.lo + o, off.hi + o, _map_cs(off, lambda x: x + o)) if o else off; cur = r.fields[fi]; continue
                 elif r.k == 'arr': sz = M.sizeof(r.el); cur = r.el
                 else: raise Unsupported('gep into %r' % r)
             ic = idx.conc()
             if ic is not None:
-                if ic: off = V(off.e + ic * sz, off.lo + ic * sz, off.hi + ic * sz)
+                if ic: off = V(off.e + ic * sz, off.lo + ic * sz, off.hi + ic * sz, _map_cs(off, lambda x: x + ic * sz))
             else:
-                off = V(off.e + idx.e * sz, off.lo + idx.lo * sz, off.hi + idx.hi * sz)
+                cs = None
+                if idx.cs is not None and off.conc() is not None:
+                    b0 = off.conc(); cs = _map_cs(idx, lambda x: b0 + x * sz)
+                off = V(off.e + idx.e * sz, off.lo + idx.lo * sz, off.hi + idx.hi * sz, cs)
         if off.lo == off.hi: off = C(off.lo)
         return Ptr(p.obj, off)
 
@@ -633,15 +724,32 @@ class Exec:
         if res is None: return NULL if isptr else s.fresh_int('oob_load', 0, (1 << (8 * n)) - 1)
         return res
 
+    def candidates(s, st, p, n):
+        """offsets at which a symbolic-offset access of width n can land (sound over-approximation)"""
+        size = s.objs[p.obj]
+        lo = max(p.off.lo, 0); hi = min(p.off.hi, size - n)
+        stride = _stride(p.off, n)
+        if stride > 1: lo += (-(lo - p.off.lo)) % stride
+        full = range(lo, hi + 1, stride)
+        cs = p.off.cs
+        if cs is None or len(full) <= len(cs[0]) or len(full) <= 8: return full, lo, stride
+        sel = sorted(c for c in cs[0] if lo <= c <= hi)
+        if cs[1]:
+            # the offset may also be "something else" (e.g. an uninitialised cell): one solver query decides
+            sv = z3.Solver(); sv.set('timeout', 20000)
+            sv.add(*s.assumes)
+            if st.guard is not True: sv.add(st.guard)
+            sv.add(*[p.off.e != c for c in cs[0]])
+            sv.add(p.off.e >= 0, p.off.e + n <= size)
+            if sv.check() != z3.unsat: return full, lo, stride
+        return sel, lo, stride
+
     def _load1(s, st, p, n, isptr):
         size = s.objs[p.obj]; cells = s.cells(st, p.obj)
         oc = p.off.conc()
         if oc is not None: return s._read_at(cells, p.obj, oc, n, isptr)
-        lo = max(p.off.lo, 0); hi = min(p.off.hi, size - n)
-        stride = _stride(p.off, n)
-        lo += (-(lo - p.off.lo)) % stride if stride > 1 else 0
-        cand = range(lo, hi + 1, stride)
-        if not isptr and len(cand) > 12:
+        cand, lo, stride = s.candidates(st, p, n)
+        if not isptr and len(cand) > 12 and isinstance(cand, range):
             vals = [s._read_at(cells, p.obj, o, n, False) for o in cand]
             if all(v.conc() is not None for v in vals):
                 from . import core as _core
@@ -675,10 +783,9 @@ class Exec:
             _clear_overlap(s, cells, p.obj, oc, n)
             cells[oc] = (n, v)
         else:
-            lo = max(p.off.lo, 0); hi = min(p.off.hi, size - n)
-            stride = _stride(p.off, n) if oc is None else 1
-            if stride > 1: lo += (-(lo - p.off.lo)) % stride
-            for o in range(lo, hi + 1, stride):
+            if oc is None: cand, lo, stride = s.candidates(st, p, n)
+            else: cand = [oc] if 0 <= oc <= size - n else []
+            for o in cand:
                 old = s._read_at(cells, p.obj, o, n, isptr)
                 cond = (p.off.e == o) if oc is None else True
                 cond = gand(cond, g)
@@ -912,7 +1019,12 @@ class Exec:
                     sv = sgn(v, fb); regs[dst] = norm(sv.e, sv.lo, sv.hi, to.bits)
                 elif op == 'trunc':
                     if isinstance(v, PtrInt): raise Unsupported('trunc of pointer-derived integer')
-                    regs[dst] = norm(v.e, v.lo, v.hi, to.bits)
+                    if 0 <= v.lo and v.hi < (1 << to.bits): r_ = v
+                    elif v.br is not None: r_ = from_bits([(b.as_long() if z3.is_int_value(b) else b) for b in v.br[:to.bits]])
+                    else:
+                        r_ = norm(v.e, v.lo, v.hi, to.bits)
+                        if r_.cs is None and v.cs is not None: r_.cs = _map_cs(v, lambda x, m_=(1 << to.bits): x % m_)
+                    regs[dst] = r_
                 elif op == 'ptrtoint':
                     if isinstance(v, Ptr): regs[dst] = PtrInt(v.obj, v.off) if v.obj is not None else C(0)
                     else: raise Unsupported('ptrtoint of %r' % (v,))
